@@ -525,6 +525,11 @@ func (app *App) stateManager() appState {
 
 	// perform failover if needed
 
+	if clusterStateDcs[master] == nil || clusterState[master] == nil {
+		app.logger.Error().Msgf("master %s is recorded in dcs but is not a registered cluster host, doing nothing", master)
+		return stateManager
+	}
+
 	if !clusterStateDcs[master].PingOk || clusterStateDcs[master].IsFileSystemReadonly {
 		app.logger.Error().Msgf("MASTER FAILURE")
 		if app.t.Get(NodeFailedAt, master).IsZero() {
